@@ -522,6 +522,88 @@ def run_validation_rules(ctx, batch):
                 ctx.fail("%s:validation:%s" % (real[1], inj.name), "invalid document (%s) raises %s" % (inj.name, real[1]), detail)
 
 
+def run_schema_directives(ctx):
+    """`schema_directives=[…]`: applications of a schema directive with invalid arguments must be rejected with a library
+    schema/SDL error (finding C11/5: `CoercionError` escaped), valid ones must build."""
+    from py_gql import build_schema
+    from py_gql.sdl import SchemaDirective
+
+    class Limit(SchemaDirective):
+        definition = "limit"
+
+        def __init__(self, args):
+            self.args = args
+    head = "directive @limit(n: Int!, e: E = A, l: [Int!]) on OBJECT | FIELD_DEFINITION | ENUM_VALUE\nenum E { A B }\n"
+    good = ["n: 1", "n: 2, e: B", "n: 3, l: [1, 2]", "n: 4, l: 5"]
+    bad = ['n: "ten"', "n: null", "e: A", "n: 1, e: NOPE", "n: 1, l: [null]", "n: 1.5", 'n: 1, e: "A"', "n: [1]", "n: {a: 1}", "n: 1, l: [\"x\"]"]
+    sites = ["type Query @limit(%s) { q: Int }", "type Query { q: Int @limit(%s) }", "type Query { q: E }\nextend type Query @limit(%s)"]
+    for args in good + bad:
+        for site in sites:
+            text = head + site % args
+            ctx.count()
+            ctx.nontrivial(text)
+            try:
+                build_schema(text, schema_directives=[Limit])
+                out = ("ok",)
+            except _classes() as e:
+                out = ("rej", type(e).__name__)
+            except RecursionError:
+                out = ("exc", "internal:RecursionError")
+            except Exception as e:  # noqa
+                out = ("exc", "internal:" + type(e).__name__)
+            ctx.stat("schema-directive-args:%s:%s" % ("valid" if args in good else "invalid", out[-1]))
+            detail = {"sdl": text, "schema_directives": "limit", "label": "schema-directive-arguments"}
+            if args in good and out[0] != "ok":
+                ctx.fail("schema-directives:valid-rejected:" + out[-1], "a valid schema directive application is rejected", detail)
+            if args in bad and out[0] == "ok":
+                ctx.fail("schema-directives:invalid-accepted", "invalid schema directive arguments are accepted", detail)
+            if out[0] == "exc":
+                ctx.fail("schema-directives:%s" % out[1], "schema directive arguments: %s instead of a schema/SDL error" % out[1], detail)
+
+
+def run_special(ctx):
+    """Two targeted checks the by-name dump cannot express."""
+    from py_gql import build_schema
+    from py_gql.schema import ScalarType
+    # C11/2: an explicit `reason: null` still deprecates
+    for what, text, get in (
+            ("field", "type Query { old: Int @deprecated(reason: null), f: Int }", lambda s: s.types["Query"].field_map["old"]),
+            ("enum-value", "enum E { A @deprecated(reason: null) B } type Query { f: E }", lambda s: s.types["E"].values[0])):
+        ctx.count()
+        try:
+            el = get(build_schema(text))
+            if not el.deprecated:
+                ctx.fail("C11-2:deprecated-null-reason-dropped:" + what, "@deprecated(reason: null) is dropped", {"sdl": text, "special": "C11-2"})
+        except Exception as e:  # noqa
+            ctx.fail("internal:%s:deprecated-null" % type(e).__name__, "@deprecated(reason: null) raises", {"sdl": text, "special": "C11-2"})
+    # C11/6: a supplied ScalarType SUBCLASS survives the extension pass (fixed in /repo 8610722)
+
+    class Cents(ScalarType):
+        def __init__(self):
+            super().__init__("Cents", serialize=None, parse=None)
+
+        def serialize(self, value):
+            return "%.2f" % (value / 100)
+
+        def parse(self, value):
+            return int(round(float(value) * 100))
+
+        def parse_literal(self, node, variables=None):
+            return self.parse(node.value)
+    text = "scalar Cents type Query { price(min: Cents = 12.50): Cents } extend type Query { other: Int }"
+    ctx.count()
+    try:
+        sc = build_schema(text, additional_types=[Cents()])
+        c = sc.types["Cents"]
+        dv = sc.types["Query"].field_map["price"].arguments[0].default_value
+        if c.serialize(1250) != "12.50" or dv != 1250:
+            ctx.fail("C11-6:scalar-subclass-flattened", "a supplied ScalarType subclass loses its overrides in the extension pass",
+                     {"sdl": text, "special": "C11-6"})
+    except Exception as e:  # noqa
+        ctx.fail("C11-6:scalar-subclass-flattened:" + type(e).__name__, "a supplied ScalarType subclass breaks the extension pass",
+                 {"sdl": text, "special": "C11-6"})
+
+
 def run_invalid(ctx, batch):
     n = ctx.n(6, 30)
     for label in sdl.INVALID_LABELS:
@@ -693,12 +775,18 @@ def run(ctx):
     run_extend(ctx, batch)
     run_invalid(ctx, batch)
     run_validation_rules(ctx, batch)
+    run_schema_directives(ctx)
+    run_special(ctx)
     run_model(ctx, batch)
     ctx.extra["documents_sent_to_model"] = len(batch.cases)
 
 
 def replay(ctx, data):
     inp = data.get("input", {})
+    if inp.get("special") or inp.get("schema_directives"):
+        c2 = type(ctx)(ctx.prop, ctx.tier, ctx.seed)
+        (run_special if inp.get("special") else run_schema_directives)(c2)
+        return not any(f["kind"] == "property" and f["detail"].get("sdl") == inp.get("sdl") for f in c2.found)
     if "base_sdl" in inp:
         real = real_extend(inp["base_sdl"], inp["ext_sdl"], inp.get("strict", True))
         return real[0] == "ok" and canon(real[1]) == canon(inp["expected"])
